@@ -76,7 +76,7 @@ func TestComposition(t *testing.T) {
 	run.SkipIfReplaying(t)
 	defer run.Done(t, chk)
 	rapid.Check(t, func(t *rapid.T) {
-		gc := gen.GenGraph(t, gen.GraphOpts{MaxTypes: 6, Recursion: true}, "g")
+		gc := gen.GenGraph(t, gen.GraphOpts{MaxTypes: 6, Recursion: true, MixedRule: true}, "g")
 		pg := gc.Print(nil)
 		sp := specOf(pg, gc.G.KeysOptional)
 		// the file name of a schema object is independent of the name it is added under: sometimes
